@@ -106,18 +106,11 @@ def _helper(chk, cls):
     from .common import inline_locals
 
     def power_gt_1(g) -> bool:
-        t, pol = inline_locals(ff, g.test), g.polarity
-        while isinstance(t, ast.UnaryOp) and isinstance(t.op, ast.Not):
-            t, pol = t.operand, not pol
-        if not (isinstance(t, ast.Compare) and len(t.ops) == 1 and "power" in norm(t.left)):
-            return False
-        thr = t.comparators[0]
-        if not isinstance(thr, ast.Constant):
-            return False
-        op = t.ops[0]
-        if pol:
-            return (isinstance(op, ast.Gt) and thr.value == 1) or (isinstance(op, ast.GtE) and thr.value == 2)
-        return (isinstance(op, ast.LtE) and thr.value == 1) or (isinstance(op, ast.Lt) and thr.value == 2)
+        from .common import holds
+        t = inline_locals(ff, g.test)
+        is_power = lambda e: "power" in norm(e)
+        const = lambda v: (lambda e: isinstance(e, ast.Constant) and e.value == v)
+        return holds(t, g.polarity, "Gt", is_power, const(1)) or holds(t, g.polarity, "GtE", is_power, const(2))
 
     inv_ok = conj_ok = guard_ok = plain_ok = False
     for r in rets:
@@ -162,8 +155,9 @@ def _sign_transform(chk, tr: FuncInfo):
     for n in walk_no_nested(tr.node):
         if isinstance(n, ast.Return) and n.value is not None:
             sinks.append((n.value, n))
-        if isinstance(n, ast.Call) and isinstance(n.func, ast.Attribute) and n.func.attr == "append" and isinstance(n.func.value, ast.Name) and n.func.value.id == "results":
-            sinks.append((n.args[0], n))
+        if isinstance(n, ast.Call) and isinstance(n.func, ast.Attribute) and n.func.attr == "append" and isinstance(n.func.value, ast.Name) and n.args \
+                and any(p.atom.kind == "const" and p.atom.name == "[]" for p in ff.paths(n.func.value, spine_only=True)):
+            sinks.append((n.args[0], n))  # appended to a local result list
     seen = 0
     for e, node in sinks:
         ps = ff.paths(e, spine_only=False, follow=True)
@@ -193,13 +187,16 @@ def _resort_in_transform(chk, tr: FuncInfo):
             ok = any(is_self_attr(g.test, "sorted") and g.polarity for g in gs)
             chk.check(ok, "SORT.state.transform", g, c, why="transform must re-sort the projections exactly when the model has been sorted (if self.sorted)")
             # same re-indexing as _sort_by_variance: positional isel by the stored index, then the old labels re-attached
-            par = ff.cfg.parents().get(id(c))
+            # the re-indexed value is then relabelled (directly chained or via a temporary) with the mode labels of the
+            # value that was re-indexed
             relabel = None
-            if isinstance(par, ast.Attribute) and par.attr == "assign_coords":
-                call2 = ff.cfg.parents().get(id(par))
-                if isinstance(call2, ast.Call):
-                    relabel = call_kwargs(call2).get("mode")
-            okr = relabel is not None and isinstance(relabel, ast.Attribute) and relabel.attr == "mode" and norm(relabel.value) == norm(c.func.value)
+            for a in ff.calls():
+                if isinstance(a.func, ast.Attribute) and a.func.attr == "assign_coords" and "mode" in call_kwargs(a) \
+                        and any(o.node is c for p in ff.paths(a.func.value, spine_only=True) for o in p.ops):
+                    relabel = call_kwargs(a)["mode"]
+            okr = relabel is not None and isinstance(relabel, ast.Attribute) and relabel.attr == "mode" and (
+                norm(relabel.value) == norm(c.func.value)
+                or {repr(p) for p in ff.paths(relabel.value, spine_only=True)} == {repr(p) for p in ff.paths(c.func.value, spine_only=True)})
             idx = call_kwargs(c).get("mode")
             okv = isinstance(idx, ast.Attribute) and idx.attr == "values"
             chk.check(okr and okv, "SORT.state.transform.same", g, c,
@@ -261,22 +258,29 @@ def _sort_cover(chk, cls):
     chk.require(len(loops) == 1, f"{fn.qualname}: loop over the container vanished")
     loop = loops[0]
     over_all = norm(loop.iter) in ("self.data.keys()", "self.data", "list(self.data.keys())", "list(self.data)")
-    ifs = [n for n in loop.body if isinstance(n, ast.If)]
+    # the conditions under which an entry is re-indexed (whatever mixture of if / continue / and / or expresses them)
+    from .common import atomic_conditions, cmp_forms
+    writes = [st for st in ast.walk(loop) if isinstance(st, ast.Assign) and isinstance(st.targets[0], ast.Subscript) and is_self_attr(st.targets[0].value, "data")]
+    chk.require(len(writes) >= 1, f"{fn.qualname}: re-indexing assignment vanished")
+    loop_inner = {id(x) for x in ast.walk(loop)}
     excluded = set()
     mode_test = False
     other_tests = []
-    if ifs:
-        t = ifs[0].test
-        parts = t.values if isinstance(t, ast.BoolOp) and isinstance(t.op, ast.And) else [t]
-        for part in parts:
-            if isinstance(part, ast.Compare) and isinstance(part.ops[0], ast.NotEq) and const_str(part.comparators[0]):
-                excluded.add(const_str(part.comparators[0]))
-            elif isinstance(part, ast.Compare) and isinstance(part.ops[0], ast.In) and const_str(part.left) == "mode":
-                mode_test = True
-            else:
-                other_tests.append(norm(part))
-    ok = over_all and mode_test and excluded == {"idx_modes_sorted"} and not other_tests and len(ifs) == 1
-    chk.check(ok, "SORT.cover", fn, ifs[0] if ifs else loop,
+    for t, pol in atomic_conditions(ff, writes[0]):
+        if not any(id(x) in loop_inner for x in ast.walk(t)) and not isinstance(t, ast.Compare):
+            continue  # conditions outside the loop (if not self.sorted)
+        if is_self_attr(t, "sorted"):
+            continue
+        forms = cmp_forms(t, pol)
+        ne = [b for o, a, b in forms if o == "NotEq" and const_str(b) is not None]
+        if ne:
+            excluded.add(const_str(ne[0]))
+        elif any(o == "In" and const_str(a) == "mode" for o, a, b in forms):
+            mode_test = True
+        else:
+            other_tests.append(("" if pol else "not ") + norm(t))
+    ok = over_all and mode_test and excluded == {"idx_modes_sorted"} and not other_tests
+    chk.check(ok, "SORT.cover", fn, writes[0],
               why=f"every entry with a 'mode' dimension except the index itself must be re-ordered (excluded: {sorted(excluded)}, "
                   f"extra conditions: {other_tests}); an entry left out keeps the unsorted mode order")
     # the re-indexing uses the stored index and relabels with the old mode coordinate
